@@ -20,16 +20,17 @@ SHRINK_BUDGET = {"quick": 400, "thorough": 1200}
 RUN_TIMEOUT_S = 300
 RULE = (
     "one run = one seeded constraint system: volume 3-12 cells per axis on a uniform grid (65%) or an explicit non-uniform "
-    "RectilinearGrid (35%, real-coordinate constraints / real margins only), 1-7 named UniformMaterialObjects, per object-axis one of "
-    "{free, size+position, two pinned sides, size only, one pinned side}; sizes from partial_grid_shape / partial_real_shape / "
-    "size_relative_to (proportion, real and grid offsets, cross-axis) / same_size, positions from set_grid_coordinates / RealCoordinateConstraint / "
-    "place_relative_to (anchors -1/0/+1/fractional, real and grid margins) / partial_real_position / extend_to (object or volume); "
-    "real-valued inputs stay 0.2 cell from snapping ties; variants consistent / under- / over-constrained (consistent and contradictory). "
-    "Families kept apart: well_posed (every size-constrained axis has a position and refers to an extent determinable before the "
-    "extend-to-infinity fallback) vs general. Schedule: all permutations of lists with <= 4 elements, else K=8 (quick) / 40 (thorough) seeded "
-    "permutations of the object list and of the constraint list. non-trivial = at least one order placed successfully; "
-    "distinct = family x grid kind x variant x constraint kinds used x object count class x outcome class"
-)
+    "RectilinearGrid (35%, real-coordinate constraints / real margins only; 10% of those add an index-space feature that must be rejected under every order), "
+    "1-7 named UniformMaterialObjects (small systems favoured), per object-axis one of {free, size+position, two pinned sides, size only, one pinned side}; "
+    "sizes from partial_grid_shape / partial_real_shape / size_relative_to (proportion, real and grid offsets, cross-axis) / same_size, positions from "
+    "set_grid_coordinates / RealCoordinateConstraint / place_relative_to (anchors -1/0/+1/fractional, real and grid margins) / partial_real_position / "
+    "extend_to (object or volume); real-valued inputs stay 0.2 cell from their exact value (>= 0.3 cell from a snapping tie); variants consistent (50%) / "
+    "under-constrained / over-constrained consistent / over-constrained contradictory. Families kept apart (label computed structurally from the final system): "
+    "well_posed = every size-constrained axis has a position and refers to an extent determinable before the extend-to-infinity fallback; general = anything the "
+    "API accepts (even run indices target well_posed, odd ones general; 40% of the general ones embed the motif 'free A, B placed against A, C sized from B'). "
+    "Schedule: all permutations of lists with <= 4 elements, else identity + reversal + seeded permutations up to K=8 (quick) / 40 (thorough), object and constraint "
+    "permutations paired round-robin. non-trivial = at least one order placed successfully; distinct = family x grid kind x variant x constraint mechanisms used x "
+    "object count class x outcome class")
 REAL = ["resolve_object_constraints", "_apply_constraints_iteratively", "_extend_to_inf_if_possible", "RectilinearGrid.bounds_for_anchor / anchor_coordinate / coord_to_index / bounds_for_center",
         "SimulationObject.place_relative_to / size_relative_to / same_size / extend_to / set_grid_coordinates", "RealCoordinateConstraint", "UniformGrid.resolve"]
 STUB = ["no arrays are allocated (resolve_object_constraints only, no place_objects)"]
